@@ -1104,6 +1104,9 @@ func (db *DB) handleMemTableFlush(mt *memTable, dropPrefixes [][]byte) error {
 		tbl, err = table.OpenInMemoryTable(data, fileID, &bopts)
 	} else {
 		tbl, err = table.CreateTable(table.NewFilename(fileID, db.opt.Dir), builder)
+		if err == nil {
+			err = db.syncDir(db.opt.Dir)
+		}
 	}
 	if err != nil {
 		return y.Wrap(err, "error while creating table")
